@@ -54,6 +54,10 @@ func c01Session(id int, files map[string]string, filesB64 map[string]string, tar
 		`{"textDocument":{"uri":"file://$ROOT/%s","version":2},"contentChanges":[{"range":{"start":{"line":0,"character":0},"end":{"line":0,"character":0}},"text":"a."}]}`, target))})
 	pc.Steps = append(pc.Steps, proto.Step{M: "textDocument/completion", P: json.RawMessage(fmt.Sprintf(
 		`{"textDocument":{"uri":"file://$ROOT/%s"},"position":{"line":0,"character":2},"context":{"triggerKind":2,"triggerCharacter":"."}}`, target))})
+	// the editor resolves items it was offered earlier (their index refers to a list that has been replaced since)
+	for _, ix := range []int{0, 4, 40} {
+		pc.Steps = append(pc.Steps, proto.Step{M: "completionItem/resolve", P: json.RawMessage(fmt.Sprintf(`{"label":"print","data":%d}`, ix))})
+	}
 	pc.Steps = append(pc.Steps, proto.Step{M: "textDocument/didSave", N: true, P: json.RawMessage(fmt.Sprintf(`{"textDocument":{"uri":"file://$ROOT/%s"},"text":%s}`, target, jstr("a."+openText)))})
 	pc.Steps = append(pc.Steps, proto.Step{M: "textDocument/hover", P: posParams(target, 0, 0)})
 	// the file watcher reports files that are not (or no longer) on disk: created, changed and deleted
